@@ -10,6 +10,7 @@
 #include <setjmp.h>
 #include <stdarg.h>
 #include <stdio.h>
+#include <stdio_ext.h>
 #include <stdlib.h>
 #include <string.h>
 #include <sys/stat.h>
@@ -120,8 +121,8 @@ static ssize_t ck_write(void *c, const char *b, size_t n) {
     return (ssize_t)done;
 }
 static int ck_seek(void *c, off64_t *o, int wh) { long r = s_lseek((int)(intptr_t)c, (long)*o, wh); if (r < 0) { errno = (int)-r; return -1; } *o = r; return 0; }
-static int ck_close(void *c) { int fd = (int)(intptr_t)c; int r = s_close(fd); auto it = g_bufs.find(fd); if (it != g_bufs.end()) { free(it->second); g_bufs.erase(it); } if (r < 0) { errno = -r; return -1; } return 0; }
 static std::map<FILE *, int> g_stream_fd;
+static int ck_close(void *c) { int fd = (int)(intptr_t)c; for (auto it = g_stream_fd.begin(); it != g_stream_fd.end();) { if (it->second == fd) it = g_stream_fd.erase(it); else ++it; } int r = s_close(fd); auto it = g_bufs.find(fd); if (it != g_bufs.end()) { free(it->second); g_bufs.erase(it); } if (r < 0) { errno = -r; return -1; } return 0; }
 static FILE *stream_for(int fd, const char *mode) {
     cookie_io_functions_t fn = {ck_read, ck_write, ck_seek, ck_close};
     char m[8]; size_t k = 0; for (const char *p = mode; *p && k < 6; p++) if (strchr("rwa+", *p)) m[k++] = *p; m[k] = 0;
@@ -231,7 +232,14 @@ static ActOut run_action(const std::string &action, int crash_at, int fault_nth,
         C.exit_code = rc;
         // a process that ends normally flushes and closes its streams; nothing of ours is left open by the actions
     } else if (j == J_CRASH) o.crashed = true;
-    C.active = false;
+    // streams the action left open: a process that ends through exit() flushes them - system calls like any other, counted and open to the
+    // crash point and the fault -, a killed process loses what they hold
+    if (!o.crashed) {
+        if (setjmp(C.jb) == 0) { std::map<FILE *, int> open_now = g_stream_fd; for (auto &kv : open_now) fflush(kv.first); }
+        else o.crashed = true;
+    }
+    C.active = false; C.crash_at = -1; C.fault_nth = -1;
+    { std::map<FILE *, int> open_now = g_stream_fd; C.fds.clear(); for (auto &kv : open_now) { __fpurge(kv.first); fclose(kv.first); } }   // the process is gone
     stdout = so; stderr = se;
     fclose(mo); fclose(me);
     if (ob) { o.out.assign(ob, on); free(ob); } if (eb) { o.err.assign(eb, en); free(eb); }
